@@ -49,7 +49,9 @@ Definition cum_spec (op : cumop) (gk : list Z) (vals : list V) (mask : option (l
 
 (* skip_na = False: the running sum includes nulls (a NaN makes it NaN from there on) *)
 Definition cumsum_noskip_spec (gk : list Z) (vals : list V) (mask : option (list bool)) : list V :=
-  map (fun i => if get (-1) gk i <? 0 then null o else sum_list o (prefix_vals gk vals mask i))
+  map (fun i => if get (-1) gk i <? 0 then null o
+                else let l := prefix_vals gk vals mask i in
+                     if existsb (is_null o) l then null o else sum_list o l)
       (seq 0 (length gk)).
 
 (* rolling: the last `window` selected rows of the group ending at row i *)
